@@ -16,4 +16,8 @@ CLAIMED = {
   "text": "Bounded symbolic model checking of the arithmetic that makes parallel results order-independent: GoroutineTaskManager.RecordRange yields ordered, contiguous, disjoint ranges covering [0,n) for every n < 2^31, worker count and worker index (mathematical integers with discharged no-overflow obligations), and GoroutineManager.AssignRoutineNumber stays within 1..cpu and max(1, n/threshold) for every load.",
   "note": "Trusted: z3, go/ssa, the interpreter (validated per run). This is the range lemma only (DESIGN.md C12a); schedule- and map-order independence of the operators is covered by the C12 harnesses that enable schedule/map-order forking where registered; --cpu beyond the modelled worker counts and the real Go scheduler are outside.",
  },
+ "C04": {
+  "text": "Bounded symbolic model checking of the bucket key: SerializeComparisonKeys on two rows of two symbolic text cells over the alphabet of every delimiter/tag character (all length combinations within the stated bounds, both --strict-equal and default mode) is injective and does not split; single cells of every value class against csvq's own equality (no merge / no split per normal form); and GROUP BY, DISTINCT, UNION, INTERSECT, EXCEPT and PARTITION BY through the real Select pipeline on 3 rows (thorough 4) with COUNT/MIN/MAX/LISTAGG computed over exactly the rows of each bucket, in first-occurrence order.",
+  "note": "Trusted: z3, go/ssa, the interpreter (validated per run). Text bounds: strict mode 0..4 bytes in one column (other column empty; thorough 0..5 | 0..1), default mode 0..1 bytes (thorough 0..2); integers in keys are concretised over small ranges; strconv.ParseFloat on symbolic text is modelled exactly only for texts without digits and i/n; float aggregates (SUM/AVG/STDEV...) and user aggregates are outside; multi-worker grouping order is C12.",
+ },
 }
